@@ -65,8 +65,8 @@ def verify_replay(path, hashseed, scratch, extra_env=None):
         digs, txts = {}, []
         for h in sorted(rep["hashseed_compare"]):
             out = os.path.join(scratch, "replay-%d-%s.json" % (derive(path) % 10**9, h))
-            p = spawn({"replay": path, "out": out, "hard_timeout_s": 300}, h, extra_env)
-            (rc, txt), = wait_all([p], 330)
+            p = spawn({"replay": path, "out": out, "hard_timeout_s": 1500}, h, extra_env)
+            (rc, txt), = wait_all([p], 1530)
             txts.append(txt)
             if rc != 0 or not os.path.exists(out):
                 return None, txt
@@ -75,8 +75,8 @@ def verify_replay(path, hashseed, scratch, extra_env=None):
         differ = len(set(digs.values())) > 1
         return {"reproduced": differ, "same_message": differ, "same_digest": digs == rep["hashseed_compare"], "violations": [], "digest": digs}, "\n".join(txts)
     out = os.path.join(scratch, "replay-%d.json" % (derive(path) % 10**9))
-    p = spawn({"replay": path, "out": out, "hard_timeout_s": 300}, hashseed, extra_env)
-    (rc, txt), = wait_all([p], 330)
+    p = spawn({"replay": path, "out": out, "hard_timeout_s": 1500}, hashseed, extra_env)
+    (rc, txt), = wait_all([p], 1530)
     if rc != 0 or not os.path.exists(out):
         return None, txt
     with open(out) as fh:
@@ -110,13 +110,16 @@ def replay_cmd(path):
     return 0
 
 
-def run_check(mod, tier, seed, workers=None, keep_digests=False, extra_env=None, quiet=False):
+def run_check(mod, tier, seed, workers=None, keep_digests=False, extra_env=None, quiet=False, hashseeds=None, out_dir=None):
+    global REPLAYS, EVIDENCE
+    if out_dir:
+        REPLAYS, EVIDENCE = os.path.join(out_dir, "replays"), os.path.join(out_dir, "evidence")
     prop = mod.ID
     t0 = time.monotonic()
     K = workers or min(16, os.cpu_count() or 4)
     n = mod.RUNS[tier]
     cap = mod.TIME[tier]
-    hashseeds = getattr(mod, "HASHSEEDS", {}).get(tier, [0])
+    hashseeds = hashseeds or getattr(mod, "HASHSEEDS", {}).get(tier, [0])
     compare_hs = len(hashseeds) > 1
     scratch = tempfile.mkdtemp(prefix="votesim-")
     os.makedirs(REPLAYS, exist_ok=True)
